@@ -1,5 +1,6 @@
-"""Prints the markdown table of the second seeding round for DESIGN.md §10.5 (ids ending in 3) from seeded/*/meta.json."""
-import json, glob, os
+"""Prints the markdown table of a later seeding round for DESIGN.md §10.5 (ids ending in 3 — the default — or 4) from seeded/*/meta.json.
+usage: seed_table.py [3|4]"""
+import json, glob, os, sys
 ROOT = os.path.dirname(os.path.dirname(os.path.abspath(__file__)))
 NEEDED = {
  "C02-B3": "generated graphs also use lenskit's own first-available component (`fallback_on_none`) — falsy primaries (0) occur",
@@ -23,8 +24,22 @@ NEEDED = {
  "C19-A3": "the ranker's input list and the scores it carries are compared before / after; original scores must be carried into the output",
  "C19-B3": "repeated calls for queries without a user identifier (derived seeds) must differ as the model's draw sequence says",
 }
+NEEDED.update({
+ "C01-B4": "per-entity statistics (count, rating count, mean rating, first / last time) compared with the record table — also on a copy of the records in which every other record has no rating value",
+ "C02-A4": "components addressed by node, by name and by an alias when they are wired",
+ "C09-A4": "the same query object scored twice (item k-NN: history with a caller-owned float32 rating array); scores must repeat and the caller's history must be what it was",
+ "C12-A4": "test collections keyed by (user, sequence number) — keys that carry fields beyond the user, with a user recurring",
+ "C12-B4": "an invoker given a model that cannot be shipped to the workers: the error surfaces and no process the invoker started is left (also checked after every pool run)",
+ "C13-A4": "after a modifying builder derived from the pipeline re-points one of its connections, the pipeline's document, hash and clone (no hash warning) are compared with what they were",
+ "C14-B4": "one builder built twice with the scorer given as class + configuration; the later pipeline's scorer is trained on other data",
+ "C15-A4": "collections holding several lists under one key",
+ "C16-A4": "fields given as nested plain sequences (list of lists, tuple of tuples, list of arrays) — right outer length, wrong dimensionality",
+ "C17-A4": "dense vectors supplied as a column-major (Fortran-ordered) matrix",
+ "C19-A4": "the configured scale factor varied (0.5, 2, −1, 0, −2) for the linear and identity transforms",
+})
+SUF = sys.argv[1] if len(sys.argv) > 1 else "3"
 rows = []
-for d in sorted(glob.glob(os.path.join(ROOT, "seeded", "*3"))):
+for d in sorted(glob.glob(os.path.join(ROOT, "seeded", "*" + SUF))):
     m = json.load(open(os.path.join(d, "meta.json")))
     i = m["id"]; txt = (m.get("breaks") or "").replace("|", "\\|").replace("\n", " ")
     txt = txt if len(txt) <= 170 else txt[:167] + "…"
